@@ -42,7 +42,7 @@ class Atom:
 
     def summand(self, k, args=None):
         pairs = [(K, to_z3num(k))]
-        if args is not None:
+        if args is not None and len(self.fvs):
             pairs += list(zip(self.fvs, args))
         t = z3.substitute(self.term, *pairs)
         if self.guard is True:
@@ -91,25 +91,41 @@ def free_consts(t, acc=None, seen=None):
     return acc
 
 
+_placeholders = {}
+
+
+def _placeholder(i, sort):
+    key = (i, sort.name())
+    if key not in _placeholders:
+        _placeholders[key] = z3.Const("FV!%d:%s" % (i, sort.name()), sort)
+    return _placeholders[key]
+
+
 def get_atom(guard, term):
+    """-> (Atom, actual arguments).  Atoms are alpha-canonical: the free constants of (guard, term) are abstracted into
+    positional placeholders in order of first appearance, so the same summand over different constants is one function."""
     term = z3.simplify(term)
     if guard is not True:
         guard = z3.simplify(guard)
         if z3.is_true(guard):
             guard = True
-    key = ("T" if guard is True else guard.sexpr()) + " ? " + term.sexpr()
+    fvs = free_consts(term)
+    if guard is not True:
+        seen = {v.get_id() for v in fvs}
+        for v in free_consts(guard):
+            if v.get_id() not in seen:
+                seen.add(v.get_id())
+                fvs.append(v)
+    phs = [_placeholder(i, v.sort()) for i, v in enumerate(fvs)]
+    pairs = list(zip(fvs, phs))
+    cterm = z3.substitute(term, *pairs) if pairs else term
+    cguard = guard if guard is True else (z3.substitute(guard, *pairs) if pairs else guard)
+    key = ("T" if cguard is True else cguard.sexpr()) + " ? " + cterm.sexpr()
     if key not in ATOMS:
-        fvs = free_consts(term)
-        if guard is not True:
-            seen = {v.get_id() for v in fvs}
-            for v in free_consts(guard):
-                if v.get_id() not in seen:
-                    fvs.append(v)
-        fvs = sorted(fvs, key=lambda v: str(v))
-        a = Atom(key, guard, term, fvs, len(ATOMS))
+        a = Atom(key, cguard, cterm, phs, len(ATOMS))
         ATOMS[key] = a
         ATOM_BY_FN[a.fn.name()] = a
-    return ATOMS[key]
+    return ATOMS[key], fvs
 
 
 # ------------------------------------------------------------------------------------------------ normaliser
@@ -183,30 +199,37 @@ def make_sum(summand_fn, lo, hi, obligations=None):
     SUM_{lo <= k < hi} summand_fn(k) as a z3 Real term (a linear combination of atom prefix sums).
     summand_fn: callable taking a z3 Int term and returning a number term.
     """
-    k = K
-    g = summand_fn(k)
+    # evaluate the summand at a FRESH index (the canonical K! may be bound by an inner sum created while evaluating it);
+    # K! is substituted afterwards, so inner prefix-sum applications receive it in argument position only
+    kf = fresh("kf", z3.IntSort())
+    g = summand_fn(kf)
     if not is_z3(g):
         g = to_z3num(g)
     g = to_real(g)
-    entries = normalise(z3.simplify(g, som=False), k)
+    if contains(g, K):
+        raise SumFailure("summand mentions the canonical bound variable")
+    g = z3.substitute(z3.simplify(g, som=False), (kf, K))
+    k = K
+    entries = normalise(g, k)
     # group
     grouped = {}
     order = []
     for guard, coeff, atom in entries:
         if atom is None and guard is True:
-            a = get_atom(True, z3.RealVal(1))
+            a, actual = get_atom(True, z3.RealVal(1))
         else:
-            a = get_atom(guard, atom if atom is not None else z3.RealVal(1))
-        if a.key not in grouped:
-            grouped[a.key] = [a, coeff]
-            order.append(a.key)
+            a, actual = get_atom(guard, atom if atom is not None else z3.RealVal(1))
+        gkey = (a.key, tuple(x.get_id() for x in actual))
+        if gkey not in grouped:
+            grouped[gkey] = [a, coeff, actual]
+            order.append(gkey)
         else:
-            grouped[a.key][1] = grouped[a.key][1] + coeff
+            grouped[gkey][1] = grouped[gkey][1] + coeff
     # check the normalisation identity (pure algebra)
     recon = z3.RealVal(0)
     for key in order:
-        a, c = grouped[key]
-        recon = recon + c * a.summand(k)
+        a, c, actual = grouped[key]
+        recon = recon + c * a.summand(k, actual)
     import time
 
     t0 = time.time()
@@ -222,11 +245,11 @@ def make_sum(summand_fn, lo, hi, obligations=None):
     hi = to_z3num(hi)
     total = None
     for key in order:
-        a, c = grouped[key]
+        a, c, actual = grouped[key]
         if a.key == "T ? 1.0":
             part = c * to_real(hi - lo)
         else:
-            part = c * (a.app(hi) - a.app(lo))
+            part = c * (a.app(hi, actual) - a.app(lo, actual))
         total = part if total is None else total + part
     if total is None:
         total = z3.RealVal(0)
